@@ -78,6 +78,7 @@ func oracle(c *Case, sems []sem) (fs []finding, wbUntil int, stats map[string]in
 					if !e.removed && sameLog(e.log, s.log) {
 						e.lastDelTik = ticks
 						e.lastDel = i
+						e.reorgDead = false // the client has it again
 						replay = true
 						if e.consumed > 0 || e.stamp < 0 {
 							stats["replay-of-finalised-event"]++
@@ -128,8 +129,12 @@ func oracle(c *Case, sems []sem) (fs []finding, wbUntil int, stats map[string]in
 				if e.log.L1 > F {
 					continue
 				}
-				if e.stamp >= 0 && !e.removed && e.reorgDead {
-					notWB(i, "removal-notices-incomplete")
+				if e.stamp >= 0 && !e.removed && e.reorgDead && !c.Canonical {
+					// a notice at or below its block arrived and none names it: in the simulated-node
+					// families every reorged log gets its notice, so this is a log of the replacement
+					// chain that overtook the notice and it IS a candidate (the property's definition);
+					// in arbitrary traces it may as well be an old-chain log whose notice never comes
+					notWB(i, "removal-notices-incomplete-or-overtaken")
 				}
 				if e.removed {
 					continue
@@ -146,7 +151,38 @@ func oracle(c *Case, sems []sem) (fs []finding, wbUntil int, stats map[string]in
 					}
 				}
 			}
+			// clauses that need no provider assumption, checked on every poll: a head that changed
+			// is the commit of a delivered log at or below the reported finalised height that no
+			// removal notice has named
+			if obs0 := s.after; !headEq(obs0, prev) {
+				ok := false
+				for _, e := range cands {
+					if obs0 != nil && e.head() == *obs0 {
+						ok = true
+					}
+				}
+				if !ok {
+					stats["oracle-unconditional-findings"]++
+					fs = append(fs, classifyValue(es, obs0, F, i))
+					prev = s.after
+					continue
+				}
+			}
+			pendingCand := false
+			for _, e := range cands {
+				if e.stamp >= 0 && e.consumed == 0 && !e.reorgDead {
+					pendingCand = true
+				}
+			}
+			if pendingCand && s.notes == 0 {
+				stats["poll:guard-skipped-candidate"]++
+			}
 			if !wb {
+				for _, e := range es {
+					if e.consumed == 0 && e.stamp >= 0 && !e.removed && e.log.L1 <= F {
+						e.consumed = ticks
+					}
+				}
 				prev = s.after
 				continue
 			}
@@ -185,7 +221,11 @@ func oracle(c *Case, sems []sem) (fs []finding, wbUntil int, stats map[string]in
 				cause = lastSeen
 			}
 			if !acceptable {
-				fs = append(fs, classify(es, best, prevEntry, obs, prev, F, i))
+				if f, ok := overtaken(cands, best, obs, prev, F, i); ok {
+					fs = append(fs, f)
+				} else {
+					fs = append(fs, classify(es, best, prevEntry, obs, prev, F, i))
+				}
 			} else {
 				if best != nil && best.stamp >= 0 {
 					stats["oracle-head-is-delivered-event"]++
@@ -242,6 +282,65 @@ func oracle(c *Case, sems []sem) (fs []finding, wbUntil int, stats map[string]in
 		}
 	}
 	return fs, wbUntil, stats
+}
+
+// overtaken recognises exactly one cause: the reference head is a log that a removal notice at or
+// below its L1 block — a notice that does not name it — wiped from the client's buffer, and what
+// the client stored instead is what is right once every such log is disregarded.
+func overtaken(cands []*entry, best *entry, obs, prev *HeadJ, F uint64, at int) (finding, bool) {
+	if best == nil || !best.reorgDead || best.removed {
+		return finding{}, false
+	}
+	var bestGE, lastGE *entry
+	for _, e := range cands {
+		if e.reorgDead && e.stamp >= 0 {
+			continue
+		}
+		if bestGE == nil || better(e, bestGE) {
+			bestGE = e
+		}
+	}
+	for _, e := range cands {
+		if e.reorgDead && e.stamp >= 0 {
+			continue
+		}
+		if bestGE != nil && e.log.L1 == bestGE.log.L1 && (lastGE == nil || e.lastDel > lastGE.lastDel) {
+			lastGE = e
+		}
+	}
+	okGE := (bestGE == nil && (obs == nil || headEq(obs, prev))) ||
+		(bestGE != nil && obs != nil && (bestGE.head() == *obs || lastGE.head() == *obs))
+	if !okGE {
+		return finding{}, false
+	}
+	h := best.head()
+	return finding{sig: "l1head-drops-replacement-log-delivered-before-removal-notice",
+		what: fmt.Sprintf("after the poll that reported finalised height %d the stored L1 head is %s; the log %s of L1 block %d was delivered, is named by no removal notice and is finalised, but a removal notice for another log at or below L1 block %d arrived after it and the client dropped it with everything at or above that block",
+			F, obs, (&h).String(), best.log.L1, best.log.L1), at: at}, true
+}
+
+// classifyValue: the stored head changed to something that is not the commit of a delivered,
+// not removed log at or below the finalised height.
+func classifyValue(es []*entry, obs *HeadJ, F uint64, at int) finding {
+	base := fmt.Sprintf("after the poll that reported finalised height %d the stored L1 head changed to %s", F, obs)
+	if obs == nil {
+		return finding{"l1head-missing", base + " (a stored head disappeared)", at}
+	}
+	var matches []*entry
+	for _, e := range es {
+		if e.head() == *obs {
+			matches = append(matches, e)
+		}
+	}
+	if len(matches) == 0 {
+		return finding{"l1head-unknown-value", base + ", which is not the commit of any delivered log", at}
+	}
+	for _, e := range matches {
+		if e.log.L1 <= F {
+			return finding{"l1head-is-removed-event", base + ", a log that a removal notice had named", at}
+		}
+	}
+	return finding{"l1head-above-finalised", base + fmt.Sprintf("; that log is at L1 block %d", matches[0].log.L1), at}
 }
 
 // catchupSig: a head that is none of the provider's logs is a corrupted value, not a missed log.
